@@ -7,7 +7,8 @@ let op_of (x : Sx.t) : op =
   | "wh", [c] -> OWriteHeader (z_of_int (Sx.int_of c))
   | "w", [bs; acc] -> OWrite (str bs, n_of_int (Sx.int_of acc))
   | "fl", [] -> OFlush
-  | "bf", [id] -> OBefore (nat_of_int (Sx.int_of id))
+  | "bf", [id] -> OBefore (nat_of_int (Sx.int_of id), false)
+  | "bfp", [id] -> OBefore (nat_of_int (Sx.int_of id), true)
   | "st", [] -> OStatus
   | "sz", [] -> OSize
   | "wr", [] -> OWritten
@@ -22,6 +23,7 @@ let ev_of (x : Sx.t) : ev =
   | "ast", [z] -> AStatus (z_of_int (Sx.int_of z))
   | "asz", [n] -> ASize (n_of_int (Sx.int_of n))
   | "awr", [b] -> AWritten (bool_of b)
+  | "pan", [] -> EPanic
   | _ -> failwith ("c13 ev: " ^ Sx.show x)
 
 let sx_ev : ev -> Sx.t = function
@@ -32,6 +34,7 @@ let sx_ev : ev -> Sx.t = function
   | AStatus z -> Sx.L [Sx.A "ast"; sx_int (int_of_z z)]
   | ASize n -> Sx.L [Sx.A "asz"; sx_int (int_of_n n)]
   | AWritten b -> Sx.L [Sx.A "awr"; sx_bool b]
+  | EPanic -> Sx.L [Sx.A "pan"]
 
 (* returns (model output, spec verdict on observed, nontrivial, class) *)
 let eval (input : Sx.t) (obs : Sx.t) : Sx.t list * bool * bool * string =
@@ -44,6 +47,7 @@ let eval (input : Sx.t) (obs : Sx.t) : Sx.t list * bool * bool * string =
   (* non-trivial: a hook registered before the first trigger and >= 2 triggers *)
   let trig = List.length (List.filter (function OWriteHeader _ | OWrite _ | OFlush -> true | _ -> false) ops) in
   let hooks = List.exists (function OBefore _ -> true | _ -> false) ops in
-  let cls = (if head then "HEAD" else "other") ^ "/" ^ (match List.find_opt (function OWriteHeader _ | OWrite _ | OFlush -> true | _ -> false) ops with
+  let panics = List.exists (function OBefore (_, true) -> true | _ -> false) ops in
+  let cls = (if panics then "panicking-hook/" else "") ^ (if head then "HEAD" else "other") ^ "/" ^ (match List.find_opt (function OWriteHeader _ | OWrite _ | OFlush -> true | _ -> false) ops with
       | Some (OWriteHeader _) -> "first=WriteHeader" | Some (OWrite _) -> "first=Write" | Some OFlush -> "first=Flush" | _ -> "no-trigger") in
   ([sx_m], spec, trig >= 2 && hooks, cls)
